@@ -365,8 +365,10 @@ class Run:
         sl = node.slice
         parts = list(sl.elts) if isinstance(sl, ast.Tuple) else [sl]
         want = len(G.shape) + (1 if G.bins else 0)
-        if len(parts) != want:
+        if len(parts) > want:
             return Mismatch(f"{len(parts)} indices for a {want}-dimensional array")
+        while len(parts) < want:                       # numpy: missing trailing indices are full slices
+            parts.append(ast.Slice(lower=None, upper=None, step=None))
         lead = []
         for p in parts[:len(G.shape)]:
             if isinstance(p, ast.Slice):
